@@ -153,9 +153,10 @@ def compare(engine, obs, states, table, masked_rows, masks):
         exp_amp = [expected_amp(table[i][j], s, t) for j, t in enumerate(states)]
         exp_prob = [abs(a) ** 2 for a in exp_amp]
         if masks:
-            kept_states, kept_prob, kept_amp = masked_rows[tuple(s)]
+            kept_states, kept_prob, kept_amp, kept_mass, ev_prob = masked_rows[tuple(s)]
         else:
-            kept_states, kept_prob, kept_amp = [tuple(t) for t in states], exp_prob, exp_amp
+            # no mask: the model proves the kept mass is one for a unitary (keptMass_unmasked)
+            kept_states, kept_prob, kept_amp, kept_mass, ev_prob = [tuple(t) for t in states], exp_prob, exp_amp, 1.0, exp_prob
         if tuple(s) in obs["amp"]:
             for j, t in enumerate(states):
                 if not core.close(obs["amp"][tuple(s)][j], exp_amp[j]):
@@ -189,8 +190,14 @@ def compare(engine, obs, states, table, masked_rows, masks):
         if tuple(s) in obs["evolve"]:
             ev = obs["evolve"][tuple(s)]
             # a StateVector is a normalised object: with a mask the kept amplitudes are renormalised
-            norm = math.sqrt(sum(kept_prob)) or 1.0
-            for t, a in zip(kept_states, [x / norm for x in kept_amp]):
+            # model: kept amplitudes / sqrt(keptMass) (evolve_mask_restrict, evolveProbs_eq, evolve_normalised)
+            norm = math.sqrt(kept_mass) or 1.0
+            for (t, a), p2 in zip(zip(kept_states, [x / norm for x in kept_amp]), ev_prob):
+                if kept_mass > 1e-9 and abs(abs(ev.get(tuple(t), 0j)) ** 2 - p2) > 2 * EVOLVE_ATOL:
+                    bad.append(("evolve", f"{engine}.evolve() |amplitude|^2 of {list(t)} for input {s} = "
+                                f"{abs(ev.get(tuple(t), 0j)) ** 2:.6g}, expected probability/kept mass {p2:.6g}",
+                                {"s": s, "t": list(t)}))
+                    break
                 # a StateVector drops components below its own cut-off (1e-6) and renormalises, and the
                 # step-by-step simulator does so after every component: absolute tolerance EVOLVE_ATOL
                 if not (core.close(ev.get(tuple(t), 0j), a) or abs(ev.get(tuple(t), 0j) - a) <= EVOLVE_ATOL):
@@ -251,7 +258,8 @@ def one_case(chk, spec, n, engine, masks, reuse=False, order=None, mask_with_n=T
     if masks:
         for s, r in zip(states, reps[1:]):
             amps = [expected_amp(core.uncx(z), s, t) for z, t in zip(r["pamp"], r["states"])]
-            masked_rows[tuple(s)] = ([tuple(t) for t in r["states"]], [float(core.unrat(p)) for p in r["prob"]], amps)
+            masked_rows[tuple(s)] = ([tuple(t) for t in r["states"]], [float(core.unrat(p)) for p in r["prob"]], amps,
+                                     float(core.unrat(r["mass"])), [float(core.unrat(p)) for p in r["evprob"]])
             chk.branch("mask")
             if len(r["states"]) < len(states):
                 chk.branch("mask-drops-states")
@@ -282,6 +290,200 @@ def one_case(chk, spec, n, engine, masks, reuse=False, order=None, mask_with_n=T
     return out
 
 
+# ------------------------------------------------------------------------------------------------
+# MPS transition tensors: the closed formulas (Model tm1 / tm2, theorems mps_tm1_eq_pamp / mps_tm2_eq_pamp)
+# ------------------------------------------------------------------------------------------------
+def gen_block2(rng, kind):
+    """a 2x2 block as a list of rows of python complex (every float is an exact dyadic rational for Lean)."""
+    if kind == "cayley":
+        return gens.qmat_to_np(gens.cayley_unitary(rng, 2)).tolist()
+    if kind == "leaf":
+        leaf = gens.gen_leaf(rng, 2, kinds=("BS",))
+        return np.array(gens.build_leaf(leaf).compute_unitary(use_symbolic=False), dtype=complex).tolist()
+    # arbitrary (non-unitary) matrix with small dyadic entries: the formula is an identity of polynomials in the
+    # four entries, unitarity plays no role
+    def z():
+        return complex(rng.randint(-8, 8) / 8, rng.randint(-8, 8) / 8)
+    return [[z(), z()], [z(), z()]]
+
+
+def real_tensor2(u, nmax, unitary):
+    """{(n1, n2, m1, m2): entry} of the real two-mode transition tensor for photon number nmax, and how it was
+    obtained: 'direct' = the array returned by MPSBackend._transition_matrix_2_mode; 'public' = through
+    set_circuit / set_input_state / prob_amplitude on a two-mode circuit holding the block (unitary blocks only)."""
+    import perceval as pcvl
+    from perceval.backends import MPSBackend
+    b = MPSBackend()
+    fn = getattr(b, "_transition_matrix_2_mode", None)
+    if fn is not None:
+        b.set_circuit(pcvl.Circuit(2))
+        b.set_input_state(pcvl.BasicState([nmax, 0]))
+        t = np.asarray(fn(np.array(u, dtype=complex)))
+        d = nmax + 1
+        if t.shape != (d, d, d, d):
+            raise ValueError(f"tensor shape {t.shape}")
+        return "direct", {(a, b_, c, e): complex(t[a, b_, c, e]) for a in range(d) for b_ in range(d)
+                          for c in range(d) for e in range(d) if a + b_ <= nmax}
+    if not unitary:
+        return "skipped", {}
+    out = {}
+    b.set_cutoff(max(2, (nmax + 1) ** 2))
+    b.set_circuit(pcvl.Circuit(2).add(0, pcvl.Unitary(pcvl.Matrix(np.array(u, dtype=complex)))))
+    for n1 in range(nmax + 1):
+        b.set_input_state(pcvl.BasicState([n1, nmax - n1]))
+        for m1 in range(nmax + 1):
+            out[(n1, nmax - n1, m1, nmax - m1)] = complex(b.prob_amplitude(pcvl.BasicState([m1, nmax - m1])))
+    return "public", out
+
+
+def real_tensor1(z, d):
+    import perceval as pcvl
+    from perceval.backends import MPSBackend
+    b = MPSBackend()
+    fn = getattr(b, "_transition_matrix_1_mode", None)
+    if fn is not None:
+        b.set_circuit(pcvl.Circuit(1))
+        b.set_input_state(pcvl.BasicState([d - 1]))
+        t = np.asarray(fn(np.array([[z]], dtype=complex)))
+        if t.shape != (d, d):
+            raise ValueError(f"tensor shape {t.shape}")
+        return "direct", {(i, j): complex(t[i, j]) for i in range(d) for j in range(d)}
+    out = {}
+    b.set_circuit(pcvl.Circuit(1).add(0, pcvl.Unitary(pcvl.Matrix(np.array([[z]], dtype=complex)))))
+    b.set_input_state(pcvl.BasicState([d - 1]))
+    out[(d - 1, d - 1)] = complex(b.prob_amplitude(pcvl.BasicState([d - 1])))
+    return "public", out
+
+
+def mps_tensor_case(chk, u, nmax, unitary):
+    """-> list of (kind, signature, what, replay)"""
+    rep = chk.lean.ask({"op": "mps2", "nmax": nmax, "U": core.mat(u)})
+    if "err" in rep:
+        raise core.LeanError(rep["err"])
+    d = nmax + 1
+    cells = [(a, b, c, e) for a in range(d) for b in range(d) for c in range(d) for e in range(d)]
+    from fractions import Fraction
+    for (n1, n2, m1, m2), tm, pa in zip(cells, rep["tm2"], rep["pamp"]):
+        if n1 + n2 <= nmax:
+            f = math.factorial(m1) * math.factorial(m2)
+            if [Fraction(tm[0]) * f, Fraction(tm[1]) * f] != [Fraction(pa[0]), Fraction(pa[1])]:
+                return [("broken", "model-internal", "m1! m2! tm2 differs from pamp inside the model",
+                         {"mps2": {"u": core.mat(u), "nmax": nmax}})]
+    how, real = real_tensor2(u, nmax, unitary)
+    chk.branch("mps-tensor2" if how != "skipped" else "mps-tensor2-skipped")
+    chk.count("mps_tensor_route", how)
+    model = {c: core.uncx(tm) for c, tm in zip(cells, rep["tm2"])}
+    npu = np.array(u, dtype=complex)
+    out = []
+    for cell, val in real.items():
+        n1, n2, m1, m2 = cell
+        scale = math.sqrt(math.factorial(m1) * math.factorial(m2)) / math.sqrt(math.factorial(n1) * math.factorial(n2))
+        exp = model[cell] * scale
+        if n1 >= 2 or n2 >= 2:
+            chk.branch("mps-tensor2-bunched")
+        if not core.close(val, exp, 1e-9 if how == "direct" else 1e-7):
+            doc = oracle_pamp(npu, [n1, n2], [m1, m2]) / math.sqrt(fact_prod([n1, n2]) * fact_prod([m1, m2]))
+            kind = "violation" if not core.close(val, doc, 1e-7) else "broken"
+            out.append((kind, "MPS-transition-tensor-2-mode",
+                        f"MPS two-mode transition tensor ({how}) entry |{n1},{n2}> -> |{m1},{m2}> = {val:.9g}, "
+                        f"boson-sampling amplitude of the block {doc:.9g} (model {exp:.9g})",
+                        {"mps2": {"u": core.mat(u), "nmax": nmax, "unitary": unitary}, "cell": list(cell)}))
+            break
+    return out
+
+
+def mps_tensor1_case(chk, z, d):
+    rep = chk.lean.ask({"op": "mps1", "d": d, "U": core.mat([[z]])})
+    if "err" in rep:
+        raise core.LeanError(rep["err"])
+    cells = [(i, j) for i in range(d) for j in range(d)]
+    model = {c: core.uncx(t) for c, t in zip(cells, rep["tm1"])}
+    how, real = real_tensor1(z, d)
+    chk.branch("mps-tensor1")
+    out = []
+    for (i, j), val in real.items():
+        if not core.close(val, model[(i, j)], 1e-9 if how == "direct" else 1e-7):
+            doc = (z ** i) if i == j else 0.0          # perm of the constant i x i matrix / i!
+            kind = "violation" if not core.close(val, doc, 1e-7) else "broken"
+            out.append((kind, "MPS-transition-tensor-1-mode",
+                        f"MPS one-mode transition tensor ({how}) entry |{i}> -> |{j}> = {val:.9g}, amplitude of the phase "
+                        f"{doc:.9g}", {"mps1": {"z": core.cx(z), "d": d}}))
+            break
+    return out
+
+
+# ------------------------------------------------------------------------------------------------
+# Stepper, component by component (Model stepperApply / stepperPerm, theorems stepper_apply_eq_stepAmps,
+# stepper_run_sound): every intermediate vector
+# ------------------------------------------------------------------------------------------------
+_STEPPER_BOX = {}
+
+
+def stepper_steps_case(chk, spec, s, reuse):
+    import perceval as pcvl
+    from perceval.backends import SLOSBackend, NaiveBackend
+    from perceval.simulators.stepper import Stepper
+    from perceval.components.unitary_components import PERM
+    m = spec["m"]
+    n = sum(s)
+    circuit = build_circuit(spec)
+    elems = list(circuit)
+    steps = []
+    mats = []
+    for r, c in elems:
+        cu = np.array(c.compute_unitary(use_symbolic=False), dtype=complex)
+        full = np.eye(m, dtype=complex)
+        full[r[0]:r[0] + cu.shape[0], r[0]:r[0] + cu.shape[0]] = cu
+        mats.append(full)
+        if isinstance(c, PERM):
+            steps.append({"r0": r[0], "perm": [int(x) for x in c.perm_vector]})
+        else:
+            steps.append({"r0": r[0], "U": core.mat(cu.tolist())})
+    rep = chk.lean.ask({"op": "stepper", "m": m, "s": s, "steps": steps})
+    if "err" in rep:
+        raise core.LeanError(rep["err"])
+    states = rep["states"]
+    replay = {"stepper": {"spec": spec, "s": s}}
+    if rep["final"] != rep["pamp"] or any(rep["outside"]) or (steps and rep["vecs"][-1] != rep["final"]):
+        return [("broken", "model-internal", "stepperRun differs from pamp of the component product inside the model",
+                 replay)]
+    if reuse:
+        st = _STEPPER_BOX.setdefault("st", Stepper(SLOSBackend()))
+    else:
+        st = Stepper(SLOSBackend() if chk.rng.random() < 0.7 else NaiveBackend())
+    st.set_circuit(circuit)
+    out = []
+    try:
+        sv = pcvl.StateVector(pcvl.BasicState(s))
+        real_vecs = []
+        for r, c in elems:
+            sv = c.apply(r, sv) if hasattr(c, "apply") else st.apply(sv, r, c)
+            real_vecs.append({tuple(k): complex(v) for k, v in sv})
+        final = {tuple(k): complex(v) for k, v in st.evolve(pcvl.BasicState(s))}
+    except Exception as e:
+        return [("violation", f"Stepper-raises-{type(e).__name__}",
+                 f"Stepper raised {type(e).__name__}: {str(e)[:150]} on a legal circuit/input", replay)]
+    fs = fact_prod(s)
+    acc = np.eye(m, dtype=complex)
+    for i, (rv, mv) in enumerate(list(zip(real_vecs, rep["vecs"])) + [(final, rep["final"])]):
+        if i < len(mats):
+            acc = mats[i] @ acc
+        last = i == len(real_vecs)
+        exp = {tuple(t): core.uncx(z) / math.sqrt(fs * fact_prod(t)) for t, z in zip(states, mv)}
+        wrong = [t for t in exp if not (core.close(rv.get(t, 0j), exp[t]) or abs(rv.get(t, 0j) - exp[t]) <= EVOLVE_ATOL)]
+        wrong += [t for t in rv if t not in exp and abs(rv[t]) > 1e-12]
+        if wrong:
+            t = wrong[0]
+            doc = expected_amp(oracle_pamp(acc, s, list(t)), s, list(t)) if (len(t) == m and sum(t) == n) else 0.0
+            kind = "violation" if abs(rv.get(t, 0j) - doc) > 2 * EVOLVE_ATOL else "broken"
+            where = "Stepper.evolve()" if last else f"the state vector after component {i} ({type(elems[i][1]).__name__} on {list(elems[i][0])})"
+            out.append((kind, "Stepper-evolve" if last else "Stepper-step-amplitude",
+                        f"{where}: amplitude of {list(t)} for input {s} = {rv.get(t, 0j):.6g}, boson-sampling amplitude of the "
+                        f"circuit so far {doc:.6g} (model {exp.get(t, 0j):.6g})", dict(replay, step=i)))
+            break
+    return out
+
+
 def shrink_case(chk, spec, n, engine, masks, sig):
     def fails(comps):
         r = one_case(chk, {"m": spec["m"], "comps": comps}, n, engine, masks)
@@ -294,14 +496,23 @@ def run(chk: core.Check):
     chk.rule = ("random circuits of BS(3 conventions, 5 unequal rational-trigonometric angles)/PS/PERM/Unitary "
                 "(Cayley-rational and Haar) on m modes; for each engine the whole (m,n) Fock space is enumerated "
                 "(all inputs x all outputs, bunched included) plus bulk methods, with and without masks; distinct = "
-                "distinct (engine, m, n, circuit signature, masks); non-trivial = circuit has >= 2 components and n >= 2")
+                "distinct (engine, m, n, circuit signature, masks); non-trivial = circuit has >= 2 components and n >= 2. "
+                "Extension: (a) the MPS transition tensors of rational 2x2 blocks (Cayley unitaries, BS leaves, arbitrary "
+                "non-unitary dyadic matrices) and 1x1 phases are compared cell by cell with the model's closed formulas "
+                "tm2/tm1 (proved equal to the permanent) for every (n1,n2,m1,m2) within the photon number; (b) the "
+                "Stepper is driven component by component (Stepper.apply / PERM.apply) and every intermediate state "
+                "vector is compared with the model's restricted-mode propagation (proved equal to the amplitudes of "
+                "the partial circuit); (c) evolve() under a mask is compared with kept amplitudes / sqrt(kept mass) "
+                "with the kept mass computed by the model")
     chk.assumptions = ["the circuit's matrix is the one compute_unitary() reports (C01/C14 cover it)",
                        "StateVector results (evolve) are compared with absolute tolerance 5e-6: the container drops "
                        "components below 1e-6 and renormalises (after every component in the step-by-step simulator); "
                        "amplitudes and probabilities from prob_amplitude/probability/prob_distribution/all_prob use 1e-9",
                        "native kernels of exqalibur are external: the model for them is the specification itself"]
     chk.required_branches = ["mask", "mask-drops-states", "bunched-input", "reused-instance", "reused-instance-mask-without-n", "reused-instance-mask-other-photon-number", "stepper-perm-not-involution", "engine:Naive", "engine:SLOS",
-                             "engine:SLAP", "engine:MPS", "engine:Stepper"]
+                             "engine:SLAP", "engine:MPS", "engine:Stepper", "mps-tensor2", "mps-tensor2-bunched",
+                             "mps-tensor2-nonsymmetric", "mps-tensor1", "stepper-steps", "stepper-steps-perm",
+                             "stepper-steps-spectators-both-sides", "stepper-steps-bunched"]
     chk.lean = core.LeanDriver("C02")
     rng = chk.rng
     n_circ = chk.pick(10, 26)
@@ -325,6 +536,39 @@ def run(chk: core.Check):
                 chk.branch("stepper-perm-not-involution")
             masks = [] if (engine == "Stepper" or rng.random() < 0.5 or n == 0) else gen_masks(rng, m, n)
             handle(chk, spec, n, engine, masks)
+    # --- MPS transition tensors against the closed formulas of the model (every cell within the photon number)
+    for i in range(chk.pick(9, 30)):
+        kind = ("cayley", "leaf", "free")[i % 3]
+        u = gen_block2(rng, kind)
+        nms = chk.pick([2, 3, 4], [2, 3, 4, 5, 6])
+        nmax = nms[(i + i // 3) % len(nms)]
+        if abs(u[0][1] - u[1][0]) > 1e-6:
+            chk.branch("mps-tensor2-nonsymmetric")
+        chk.count("mps_tensor", f"{kind}-n{nmax}")
+        res = mps_tensor_case(chk, u, nmax, unitary=(kind != "free"))
+        chk.case(("mps2", json.dumps(core.mat(u)), nmax), nontrivial=nmax >= 2, sample={"mps2": kind, "nmax": nmax})
+        for k_, sig_, what_, rp_ in res:
+            chk.fail(k_, sig_, what_, rp_)
+    for i in range(chk.pick(3, 8)):
+        cs = core.rational_cs(rng)
+        z = complex(float(cs[0]), float(cs[1])) if i % 3 else complex(rng.randint(-8, 8) / 8, rng.randint(-8, 8) / 8)
+        d = chk.pick(6, 8) if i == 0 else rng.randint(2, chk.pick(6, 8))
+        res = mps_tensor1_case(chk, z, d)
+        chk.case(("mps1", repr(z), d), nontrivial=d >= 3, sample={"mps1": repr(z), "d": d})
+        for k_, sig_, what_, rp_ in res:
+            chk.fail(k_, sig_, what_, rp_)
+    # --- Stepper component by component: every intermediate vector against the restricted-mode model
+    for i in range(chk.pick(10, 30)):
+        m, n = rng.choice(chk.pick([(2, 2), (3, 2), (3, 3), (4, 2), (4, 3), (5, 2)],
+                                   [(2, 3), (3, 2), (3, 3), (4, 2), (4, 3), (5, 2), (5, 3), (6, 2), (3, 4)]))
+        spec = gen_circuit_spec(rng, m, rng.randint(2, chk.pick(6, 9)), False)
+        if m >= 3 and i % 2 == 0:
+            w = rng.randint(3, m)
+            perm = list(range(w))
+            while all(perm[perm[j]] == j for j in range(w)):
+                rng.shuffle(perm)
+            spec["comps"].insert(rng.randint(0, len(spec["comps"])), [rng.randint(0, m - w), {"t": "PERM", "perm": perm}])
+        handle_stepper_steps(chk, spec, rng.choice(all_states(m, n)), reuse=(i % 3 == 0))
     # long-lived engine objects: one instance per engine serves circuits of changing size and photon number, with
     # inputs re-submitted out of order (the amplitudes must not depend on what the object served before)
     history = []
@@ -391,6 +635,31 @@ def handle(chk, spec, n, engine, masks, reuse=False, order=None, mask_with_n=Tru
         chk.fail(kind, s, what, replay)
 
 
+def handle_stepper_steps(chk, spec, s, reuse=False):
+    chk.branch("stepper-steps")
+    if any(leaf["t"] == "PERM" for _, leaf in spec["comps"]):
+        chk.branch("stepper-steps-perm")
+    if any(off > 0 and gens.leaf_width(leaf) < spec["m"] - off for off, leaf in spec["comps"]):
+        chk.branch("stepper-steps-spectators-both-sides")
+    if max(s) >= 2:
+        chk.branch("stepper-steps-bunched")
+    res = stepper_steps_case(chk, spec, s, reuse)
+    chk.case(("stepper-steps", json.dumps(spec["comps"], sort_keys=True), tuple(s), reuse),
+             nontrivial=(len(spec["comps"]) >= 2 and sum(s) >= 2),
+             sample={"stepper-steps": [(o, l["t"]) for o, l in spec["comps"]], "s": s})
+    for kind, sig, what, rp in res:
+        if kind == "violation" and len(spec["comps"]) > 1 and not reuse:
+            def fails(comps):
+                r = stepper_steps_case(chk, {"m": spec["m"], "comps": comps}, s, False)
+                return any(x[1] == sig for x in r)
+            try:
+                small = gens.shrink_list(spec["comps"], fails, max_rounds=40)
+                rp = dict(rp, stepper={"spec": {"m": spec["m"], "comps": small}, "s": s})
+            except Exception:
+                pass
+        chk.fail(kind, sig, what, rp)
+
+
 def load_corpus():
     import glob
     import os
@@ -401,6 +670,17 @@ def replay(chk, data):
     chk.lean = core.LeanDriver("C02")
     chk.rule = "replay of one stored case"
     r = data["replay"]
+    if "mps2" in r:
+        u = [[core.uncx(z) for z in row] for row in r["mps2"]["u"]]
+        for k_, sig_, what_, rp_ in mps_tensor_case(chk, u, r["mps2"]["nmax"], r["mps2"].get("unitary", False)):
+            chk.fail(k_, sig_, what_, rp_)
+        return
+    if "mps1" in r:
+        for k_, sig_, what_, rp_ in mps_tensor1_case(chk, core.uncx(r["mps1"]["z"]), r["mps1"]["d"]):
+            chk.fail(k_, sig_, what_, rp_)
+        return
+    if "stepper" in r:
+        return handle_stepper_steps(chk, r["stepper"]["spec"], r["stepper"]["s"])
     if r.get("reuse"):
         # a long-lived-engine failure depends on the whole history: re-run the run it came from (same seed and tier)
         import random
